@@ -14,7 +14,8 @@ def run(ctx):
     idx = ctx.index
     res = ctx.resolver
     h = Hierarchy(idx)
-    cm = idx.func("gwf.plugins.cancel:cancel_many")
+    from ..inline import inlined
+    cm = inlined(ctx, idx.func("gwf.plugins.cancel:cancel_many"))
     ccon = f"{cm.module.relpath}::{cm.qual}"
 
     r1 = ctx.rule("R1", "each target is cancelled inside its own try whose handlers absorb every backend failure; only 'unsupported' aborts", min_instances=3)
@@ -96,38 +97,24 @@ def run(ctx):
                         pr_ok = n.lineno < first_backend
     r2.check(pr_ok, con + "::prompt", "cancelling everything asks for confirmation (abort on decline) before the backend is touched",
              "`gwf cancel` without targets and without --force does not ask for confirmation (aborting on decline) before cancelling", cc.where)
-    tb_cancel = idx.func(f"{BASE}:TrackingBackend.cancel")
+    from .evalhelpers import eval_cancel
+    from ..symeval import tok
+    res, tb_cancel = eval_cancel(ctx)
     tcon = f"{tb_cancel.module.relpath}::{tb_cancel.qual}"
-    p = tb_cancel.positional_params()
-    cj = [c for c in _calls(tb_cancel.node) if isinstance(c.func, ast.Attribute) and c.func.attr == "cancel_job"]
-    ok = len(cj) == 1 and cj[0].args and ast.unparse(cj[0].args[0]) == f"self._tracked_jobs[{p[1]}.name]"
-    if not ok and len(cj) == 1 and cj[0].args and isinstance(cj[0].args[0], ast.Name):
-        v = cj[0].args[0].id
-        ok = any(isinstance(n, ast.Assign) and dotted(n.targets[0]) == v and ast.unparse(n.value) == f"self._tracked_jobs[{p[1]}.name]" for n in walk_no_nested(tb_cancel.node))
-    r2.check(ok, tcon + "::id", "ops.cancel_job(self._tracked_jobs[target.name])", "the job that is cancelled is not the one tracked under the target's own name", tb_cancel.where)
-    # the cancel request must reach the scheduler for every tracked job: no extra guard between lookup and cancel_job
-    guards = []
-    for c in cj:
-        for a in ancestors(c):
-            if isinstance(a, ast.If):
-                guards.append(a)
-    early = [n for n in walk_no_nested(tb_cancel.node) if isinstance(n, ast.Raise) and not any(isinstance(a, ast.ExceptHandler) for a in ancestors(n))]
-    r2.check(not guards and not early, tcon + "::unconditional", "every tracked job is passed to the scheduler's cancel command",
-             "TrackingBackend.cancel skips the scheduler's cancel command under a condition of its own (e.g. the job's last known state): a job that is still alive "
-             "at the scheduler (unknown/error state) is then never cancelled", loc((guards or early)[0], tb_cancel.module) if (guards or early) else tb_cancel.where)
-    ke = any(isinstance(hd.type, ast.Name) and hd.type.id == "KeyError" and any(isinstance(s, ast.Raise) and "TargetError" in ast.unparse(s) for s in hd.body)
-             for n in walk_no_nested(tb_cancel.node) if isinstance(n, ast.Try) for hd in n.handlers)
-    r2.check(ke, tcon + "::untracked", "untracked target -> TargetError", "a target that was never submitted does not surface as TargetError", tb_cancel.where)
+    bad = {k: v for k, v in res.items() if k != "untracked" and v != [tok("ID")]}
+    r2.check(not bad, tcon + "::id", "whatever gwf last knew about the job, ops.cancel_job receives exactly the id tracked under the target's own name",
+             f"TrackingBackend.cancel(T) with T tracked as <id>: per last-known job state the scheduler's cancel gets {bad} (expected [<id>] always): "
+             "a job that is still alive at the scheduler (unknown/error state) would never be cancelled, or another job would be", tb_cancel.where)
+    r2.check(res.get("untracked") == "TargetError", tcon + "::untracked", "untracked target -> TargetError",
+             f"cancelling a target that was never submitted gives {res.get('untracked')} instead of TargetError", tb_cancel.where)
     # each ops.cancel_job issues exactly one scheduler cancel with the id it is given
-    for mod, cname, exe in (("gwf.backends.slurm", "SlurmOps", "scancel"), ("gwf.backends.sge", "SGEOps", "qdel"), ("gwf.backends.lsf", "LSFOps", "bkill")):
-        m = idx.func(f"{mod}:{cname}.cancel_job")
-        jp = m.positional_params()[1]
-        calls = [c for c in _calls(m.node) if isinstance(c.func, (ast.Name, ast.Attribute)) and idx.canon(c.func, m.module) == "gwf.backends.utils.call"]
-        ok = len(calls) == 1 and isinstance(calls[0].args[0], ast.Constant) and calls[0].args[0].value == exe and dotted(calls[0].args[-1]) == jp
-        r2.check(ok, f"{m.module.relpath}::{m.qual}", f"call('{exe}', ..., job_id)", f"{cname}.cancel_job does not issue exactly one `{exe} <job id>`", m.where)
-        if exe == "scancel" and calls:
-            r2.check(any(isinstance(a, ast.Constant) and a.value == "--verbose" for a in calls[0].args), f"{m.module.relpath}::{m.qual}::verbose", "scancel --verbose (failure visible on stderr)",
-                     "scancel is called without --verbose: a failed cancellation is indistinguishable from success", m.where)
+    from .evalhelpers import eval_cancel_job
+    for mod, cname, want in (("gwf.backends.slurm", "SlurmOps", [("scancel", "--verbose", tok("JOB"))]), ("gwf.backends.sge", "SGEOps", [("qdel", tok("JOB"))]),
+                             ("gwf.backends.lsf", "LSFOps", [("bkill", tok("JOB"))])):
+        calls, m = eval_cancel_job(ctx, mod, cname)
+        r2.check(calls == want, f"{m.module.relpath}::{m.qual}", f"{' '.join(want[0][:-1])} <job id>",
+                 f"{cname}.cancel_job issues {calls}; expected exactly one `{' '.join(want[0][:-1])} <job id>`"
+                 + (" (without --verbose a failed scancel is indistinguishable from success)" if cname == "SlurmOps" else ""), m.where)
     lo = idx.func("gwf.backends.local:LocalOps.cancel_job")
     ok = any(isinstance(c.func, ast.Attribute) and c.func.attr == "cancel" and c.args and dotted(c.args[0]) == lo.positional_params()[1] for c in _calls(lo.node))
     r2.check(ok, f"{lo.module.relpath}::{lo.qual}", "client.cancel(job_id)", "LocalOps.cancel_job does not forward the job id to the pool", lo.where)
